@@ -169,6 +169,75 @@ fn gen_payload(rng: &mut Rng, g: &Grammar, allow_bare: bool) -> (Vec<Tok>, Strin
     (out, tag, block)
 }
 
+/// The unknown element stands behind IF_DATA blocks that are interpreted with the A2ML block of the
+/// file (generated definition, conforming instances): at the end of the MODULE, or at the end of the
+/// element that hosts the last IF_DATA.
+fn behind_interpreted_ifdata_case(rng: &mut Rng, rec: &mut Recorder, g: &Grammar) {
+    let (text0, _flat, _n) = crate::c18::gen_conforming_document(rng);
+    let (payload, tag, is_block) = gen_payload(rng, g, true);
+    // (a line comment ends at the end of its line)
+    let payload_text: String = payload.iter().map(|t| if t.text.starts_with("//") { format!("{}\n", t.text) } else { format!("{} ", t.text) }).collect();
+    // insertion point: in front of the last `/end MODULE`
+    let Some(at) = text0.rfind("/end MODULE") else { return };
+    let at = text0[..at].rfind("/end").filter(|_| false).unwrap_or(at);
+    let text = format!("{}{}\n{}", &text0[..at], payload_text, &text0[at..]);
+    let (base_model, base_log) = match load_str(&text0, false) {
+        Ok(Ok(v)) => v,
+        _ => {
+            rec.bump("baseline_rejected");
+            return;
+        }
+    };
+    let interpreted = {
+        let m = &base_model.project.module[0];
+        m.if_data.iter().any(|i| i.ifdata_valid) || m.measurement.iter().any(|x| x.if_data.iter().any(|i| i.ifdata_valid))
+    };
+    rec.eval();
+    rec.nontrivial(text.as_bytes());
+    rec.bump("behind_interpreted_if_data.docs");
+    if interpreted {
+        rec.bump("behind_interpreted_if_data.with_valid_if_data");
+    }
+    let sigctx = if is_block { "unknown block behind interpreted IF_DATA" } else { "unknown keyword behind interpreted IF_DATA" };
+    let note = format!("inserted {tag} (block={is_block}) at the end of the MODULE of a document with A2ML-interpreted IF_DATA");
+    match load_str(&text, false) {
+        Err((sig, detail)) => rec.violation(&sig, &detail, witness_text("C07", &text, &note)),
+        Ok(Err(e)) => rec.violation(&format!("{sigctx}: non-strict load fails: {}", err_class(&e)), &format!("{note}: {e}"), witness_text("C07", &text, &note)),
+        Ok(Ok((model, log))) => {
+            if model != base_model {
+                rec.violation(
+                    &format!("{sigctx}: model differs from the model without the unknown element"),
+                    &format!("{note}; {}", crate::c01::model_diff(&base_model, &model)),
+                    witness_text("C07", &text, &note),
+                );
+            }
+            let n_unknown = log.iter().filter(|e| err_class(e) == "ParserError.UnknownSubBlock" && format!("{e:?}").contains(&format!("tag: \"{tag}\""))).count();
+            if n_unknown != 1 || log.len() != base_log.len() + 1 {
+                rec.violation(
+                    &format!("{sigctx}: log is not the baseline log plus one UnknownSubBlock"),
+                    &format!("{note}: {} entries (baseline {}), {n_unknown} naming the tag", log.len(), base_log.len()),
+                    witness_text("C07", &text, &note),
+                );
+            }
+        }
+    }
+    match load_str(&text, true) {
+        Err((sig, detail)) => rec.violation(&sig, &detail, witness_text("C07", &text, &note)),
+        Ok(Ok(_)) => rec.violation(&format!("{sigctx}: strict load accepts the unknown element"), &note, witness_text("C07", &text, &note)),
+        Ok(Err(e)) => {
+            // the documents of this generator may hold a deviating IF_DATA block (kept as data, no
+            // diagnostic), so the first strict error is the unknown element
+            if err_class(&e) != "ParserError.UnknownSubBlock" || !format!("{e:?}").contains(&format!("tag: \"{tag}\"")) {
+                rec.violation(
+                    &format!("{sigctx}: strict load fails with {} instead of UnknownSubBlock", err_class(&e)),
+                    &format!("{note}: {e}"),
+                    witness_text("C07", &text, &note),
+                );
+            }
+        }
+    }
+}
+
 pub fn run(args: &Args, rec: &mut Recorder) {
     rec.rule = "evaluation = one valid document with one unknown element inserted at one block-level slot, loaded in non-strict mode (model must equal the model of the unmodified document, log must be the baseline log plus exactly one UnknownSubBlock naming the inserted tag) and in strict mode (must fail with UnknownSubBlock naming the tag); distinct_nontrivial = distinct modified texts by content hash".into();
     rec.assumptions.push("payload words are disjoint from all grammar tags; a bare unknown keyword is not inserted directly behind an open-ended identifier list (there it is a list member by definition); slots are inside /begin../end blocks that have optional sub-elements".into());
@@ -177,6 +246,10 @@ pub fn run(args: &Args, rec: &mut Recorder) {
     let max_slots = if args.thorough { usize::MAX } else { 20 };
     let scratch = crate::c03::scratch_dir(args);
     run_cases(args, rec, n_docs, crate::util::reset_budget, |rng, case, rec| {
+        if case % 12 == 5 {
+            behind_interpreted_ifdata_case(rng, rec, &g);
+            return None;
+        }
         let mut cfg = crate::c01::gen_cfg_wide(rng, args.thorough);
         cfg.max_elems = *rng.pick(&[8usize, 30, 80]);
         let mut gen = DocGen::new(&g, cfg);
@@ -344,6 +417,7 @@ pub fn run(args: &Args, rec: &mut Recorder) {
     });
     let _ = std::fs::remove_dir_all(&scratch);
     rec.floor("baseline_docs", 10);
+    rec.floor("behind_interpreted_if_data.with_valid_if_data", 10);
     rec.floor("payload_in_include_file.block", 5);
     rec.floor("payload_in_include_file.keyword", 5);
     rec.floor("payload.block", 10);
